@@ -318,6 +318,25 @@ def judge(sessions, origins, mode, listener_addr):
     return recs, fabricated
 
 
+def loss_only(recs, fabricated):
+    """some datagram or reply is missing, and nothing else is wrong"""
+    if fabricated or not recs:
+        return False
+    missing = False
+    for r in recs:
+        if r["misdelivered"] or r["corrupted"] or r["foreign_replies"] or r["mislabelled"]:
+            return False
+        if any(n > 1 for n in r["at_origin"]) or any(n > 1 for n in r["replies"]):
+            return False
+        if any(n == 0 for n in r["at_origin"]) or any(n == 0 for n in r["replies"]):
+            missing = True
+        if r["tiny_at_origin"] != r["tiny_expected_at_origin"] or r["tiny_replies"] not in ([0, 1, 2], [-1]):
+            if len([x for x in r["tiny_at_origin"] if x >= 0]) > len([x for x in r["tiny_expected_at_origin"] if x >= 0]):
+                return False          # more than was sent: not a loss
+            missing = True
+    return missing
+
+
 def run(tier, t0):
     v = vlib.Verdicts(PID)
     wd = vlib.workdir("c10")
@@ -329,18 +348,32 @@ def run(tier, t0):
              ("upquic", "reverse"), ("upquic", "socks"), ("upquici", "reverse"), ("upquici", "socks"), ("upsocks5b", "socks"), ("upsocks5b", "reverse")]
     all_recs = []
     sid = 1
+    reruns = []
     for up, mode in paths:
-        origins = [bb.UdpOrigin("127.0.0.1"), bb.UdpOrigin("127.0.0.1")]
-        topo = UdpTopo(wd, origins[0].port).start()
-        try:
-            sessions = run_path(topo, up, mode, origins, sizes, 8 if thorough else 3, 12 if thorough else 6, sid)
-        finally:
-            alive = topo.p1.alive() and topo.p2.alive()
-            panic = topo.p1.panicked() or topo.p2.panicked()
-        sid += len(sessions)
-        recs, fabricated = judge(sessions, origins, mode, ("127.0.0.1", topo.rev[up]))
-        if recs:
-            recs[0]["fabricated_at_origin"] = fabricated
+        for attempt in range(3):
+            origins = [bb.UdpOrigin("127.0.0.1"), bb.UdpOrigin("127.0.0.1")]
+            topo = UdpTopo(wd, origins[0].port).start()
+            try:
+                sessions = run_path(topo, up, mode, origins, sizes, 8 if thorough else 3, 12 if thorough else 6, sid)
+            finally:
+                alive = topo.p1.alive() and topo.p2.alive()
+                panic = topo.p1.panicked() or topo.p2.panicked()
+            sid += len(sessions)
+            recs, fabricated = judge(sessions, origins, mode, ("127.0.0.1", topo.rev[up]))
+            if recs:
+                recs[0]["fabricated_at_origin"] = fabricated
+            # "absent network loss": on a loaded machine loopback datagrams are dropped at full socket buffers. A run whose only
+            # flaw is missing datagrams is repeated; a defect that loses datagrams loses them again, the machine's load does not
+            if attempt < 2 and alive and not panic and loss_only(recs, fabricated):
+                reruns.append({"path": [up, mode], "attempt": attempt})
+                for s_ in sessions:
+                    s_.close()
+                topo.stop()
+                for o in origins:
+                    o.close()
+                time.sleep(1.0)
+                continue
+            break
         # receive error: a client vanishes before the echo reply reaches it (ICMP port unreachable on the session socket);
         # nothing may be fabricated from that error, neither towards the origin nor towards other sessions
         if mode == "reverse":
@@ -390,6 +423,7 @@ def run(tier, t0):
     ev = vlib.evidence(PID, tier, "model_checking", {
         "states": mc.distinct, "transitions": mc.generated, "traces_validated_against_impl": len(all_recs),
         "samples": all_recs[:2], "evaluations": sum(r["sent"] for r in all_recs), "distinct_nontrivial": len(all_recs),
+        "paths_repeated_because_only_datagrams_were_missing": reruns,
         "rule": "MCUdp: 2 clients x 2 datagrams x 2 origins with one receive error: DeliveredRight, AtMostOnce, RepliesRight, Isolation, AllDelivered; "
                 "real processes: reverse-UDP listener and SOCKS5 UDP ASSOCIATE, each through direct / http (inline frames) / socks5 / quic datagrams "
                 "(fragmenting) / quic inline upstreams, several concurrent sessions with interleaved tagged datagrams of sizes up to %d bytes to IPv4, "
